@@ -2,6 +2,7 @@ package main
 
 import (
 	"fmt"
+	"go/ast"
 	"go/types"
 	"sort"
 	"strings"
@@ -72,6 +73,7 @@ func propC06(w *World, r *Report) {
 		}
 	}
 	e := newTermEnv(w)
+	e.valueHelpers = true // the constructor may compute its frame numbers in an extracted helper
 	ci := e.useCtor(c.T, c.Ctor)
 	var limName string
 	for _, ev := range run.sortedEvents() {
@@ -334,26 +336,52 @@ func propC05(w *World, r *Report) {
 	r.Check(nTake == 1, "T1", "exactly one token-taking site in the program", "-", fmt.Sprint(nTake))
 	// T2
 	e := newTermEnv(w)
+	e.valueHelpers = true
 	found := false
+	// the bucket is built in the constructor, or in an unexported helper of the package the constructor calls
+	// (its parameters are then bound to the constructor's arguments)
+	type site struct {
+		blocks []*ssa.BasicBlock
+		env    *termEnv
+	}
+	sites := []site{{c.Ctor.Blocks, e}}
 	for _, b := range c.Ctor.Blocks {
 		for _, in := range b.Instrs {
-			call, ok := in.(*ssa.Call)
-			if !ok {
-				continue
+			if hc, ok := in.(*ssa.Call); ok {
+				if callee := hc.Call.StaticCallee(); callee != nil && callee.Pkg == c.Ctor.Pkg && len(callee.Blocks) > 0 && !ast.IsExported(callee.Name()) {
+					ce := e.child()
+					for pi, p := range callee.Params {
+						if pi < len(hc.Call.Args) {
+							ce.bind[p] = e.termOf(hc.Call.Args[pi])
+						}
+					}
+					sites = append(sites, site{callee.Blocks, ce})
+				}
 			}
-			callee := call.Call.StaticCallee()
-			if callee == nil || callee.Pkg == nil || callee.Pkg.Pkg.Path() != "github.com/juju/ratelimit" {
-				continue
-			}
-			found = true
-			r.Check(callee.Name() == "NewBucketWithRateAndClock", "T2", "bucket built with an explicit rate and the injected clock", w.InstrPos(call), callee.Name())
-			if len(call.Call.Args) >= 2 {
-				rate := e.termOf(call.Call.Args[0]).String()
-				capa := e.termOf(call.Call.Args[1]).String()
-				wantRate := "div(" + tmul(tleaf(leafFPS), tleaf("param:int")).String() + ", time.Duration.Seconds(config.ThermalThrottler.MinRefill@param:config.ThermalThrottler))"
-				wantCap := tmul(tleaf(leafFPS), mk("trunc", "", mk("call", "time.Duration.Seconds", tleaf("config.ThermalThrottler.BucketSize@param:config.ThermalThrottler")))).String()
-				r.Check(rate == wantRate, "T2", "refill rate = (minSeconds*FPS) / MinRefill.Seconds()", w.InstrPos(call), rate)
-				r.Check(capa == wantCap, "T2", "capacity = int64(BucketSize.Seconds()) * FPS", w.InstrPos(call), capa)
+		}
+	}
+	for _, st := range sites {
+		e := st.env
+		for _, b := range st.blocks {
+			for _, in := range b.Instrs {
+				call, ok := in.(*ssa.Call)
+				if !ok {
+					continue
+				}
+				callee := call.Call.StaticCallee()
+				if callee == nil || callee.Pkg == nil || callee.Pkg.Pkg.Path() != "github.com/juju/ratelimit" {
+					continue
+				}
+				found = true
+				r.Check(callee.Name() == "NewBucketWithRateAndClock", "T2", "bucket built with an explicit rate and the injected clock", w.InstrPos(call), callee.Name())
+				if len(call.Call.Args) >= 2 {
+					rate := e.termOf(call.Call.Args[0]).String()
+					capa := e.termOf(call.Call.Args[1]).String()
+					wantRate := "div(" + tmul(tleaf(leafFPS), tleaf("param:int")).String() + ", time.Duration.Seconds(config.ThermalThrottler.MinRefill@param:config.ThermalThrottler))"
+					wantCap := tmul(tleaf(leafFPS), mk("trunc", "", mk("call", "time.Duration.Seconds", tleaf("config.ThermalThrottler.BucketSize@param:config.ThermalThrottler")))).String()
+					r.Check(rate == wantRate, "T2", "refill rate = (minSeconds*FPS) / MinRefill.Seconds()", w.InstrPos(call), rate)
+					r.Check(capa == wantCap, "T2", "capacity = int64(BucketSize.Seconds()) * FPS", w.InstrPos(call), capa)
+				}
 			}
 		}
 	}
